@@ -387,6 +387,14 @@ def all_clauses(kind, coroutine_ops):
         out += co_return_variants(kind) + co_yield_variants(kind) + co_throw_variants()
     return out
 
+def plain_clauses(kind, coroutine_ops):
+    """the spellings that are not a fault by themselves on this kind (they may still collide with the state)"""
+    out = with_variants(kind) + side_variants(kind) + return_variants(kind, ("ok",)) + throw_variants()
+    out += times_clauses(TIMES_POS + TIMES_ZERO) + rt_clauses() + seq_clauses()
+    if coroutine_ops and KINDS[kind].coro:
+        out += co_return_variants(kind, ("ok",)) + co_yield_variants(kind, ("ok",)) + co_throw_variants()
+    return out
+
 @st.composite
 def free_programs(draw):
     kind = _pick(draw, ALLK)
@@ -398,11 +406,17 @@ def free_programs(draw):
     family = _pick(draw, CALL_FAMILIES)
     co_ops = bool(KINDS[kind].coro) or _rare(draw, 4)
     alphabet = all_clauses(kind, co_ops)
+    plain = set(plain_clauses(kind, co_ops))
     ops = sorted({c[0] for c in alphabet})
     clauses = []
     for _ in range(draw(st.integers(0, MAX_CLAUSES))):
         op = _pick(draw, ops)                                  # clause kind first, so that rare spellings are not drowned
-        clauses.append(_pick(draw, [c for c in alphabet if c[0] == op]))
+        cands = [c for c in alphabet if c[0] == op]
+        odd = [c for c in cands if c not in plain]
+        if odd and (len(odd) == len(cands) or _rare(draw, 3)):  # spellings that are a fault by themselves: one time in four
+            clauses.append(_pick(draw, odd))
+        else:
+            clauses.append(_pick(draw, [c for c in cands if c in plain]))
     opts = {}
     if _rare(draw, 3):
         opts = _legal_opts(draw, kind, family)
